@@ -117,6 +117,12 @@ def scenarios(ctx):
         inst = rand_instance(rng, big=(i % 4 == 0))
         covered = {c[0] for r in inst["reads"] for c in r["cells"]}
         scs.append({"inst": inst, "positions": not (len(covered) == inst["m"] and rng.random() < 0.5), "order": i % 3})
+        if rng.random() < 0.15 and inst["m"] >= 3:
+            ends = {r["cells"][0][0] for r in inst["reads"]} | {r["cells"][-1][0] for r in inst["reads"]}
+            inner = [c for c in range(2, inst["m"]) if c not in ends]
+            if inner:
+                scs[-1]["drop"] = sorted(rng.sample(inner, rng.randint(1, min(2, len(inner)))))
+                scs[-1]["positions"] = True
     # ---- DEEP instances: a column covered by 17..20 reads (beyond the default cap of 15; --internal-downsampling allows 23) ----
     for i in range(24 if q else 300):
         scs.append({"inst": deep_instance(rng), "positions": True, "order": i % 3, "deep": True})
@@ -167,7 +173,17 @@ def deep_instance(rng):
             "gl": [[[0, 0, 0]] * m], "planted": planted}
 
 
-def solve(inst, positions=True, order=0):
+def restrict_columns(inst, drop):
+    """the instance the solver sees when the explicit position list leaves out the columns `drop` (1-based): those cells vanish"""
+    keep = [c for c in range(1, inst["m"] + 1) if c not in drop]
+    ren = {c: k + 1 for k, c in enumerate(keep)}
+    out = dict(inst, m=len(keep), rc=[inst["rc"][c - 1] for c in keep],
+               reads=[{"ind": r["ind"], "cells": [[ren[c], a, w] for c, a, w in r["cells"] if c in ren]} for r in inst["reads"]],
+               gt=[[row[c - 1] for c in keep] for row in inst["gt"]], gl=[[row[c - 1] for c in keep] for row in inst["gl"]])
+    return out
+
+
+def solve(inst, positions=True, order=0, drop=()):
     from whatshap.core import (ReadSet, Read, Pedigree, NumericSampleIds, PedigreeDPTable, Genotype,
                                PhredGenotypeLikelihoods)
     ids = NumericSampleIds()
@@ -186,14 +202,40 @@ def solve(inst, positions=True, order=0):
             rd.add_variant(c * 10, a, w)
         rs.add(rd)
     pos = [c * 10 for c in range(1, m + 1)] if positions else None
-    dp = PedigreeDPTable(rs, list(inst["rc"]), ped, bool(inst["distrust"]), pos)
+    if drop:
+        # an explicit position list that leaves out columns some reads carry (never first/last of a read): the solver must
+        # treat the reads as if those cells did not exist.  Pedigree genotypes / costs are given for the listed columns only.
+        sub = restrict_columns(inst, set(drop))
+        ids = NumericSampleIds()
+        ped = Pedigree(ids)
+        for i in range(sub["nInd"]):
+            gts = [Genotype([0] * (2 - g) + [1] * g) for g in sub["gt"][i]]
+            gls = [PhredGenotypeLikelihoods([float(x) for x in t]) for t in sub["gl"][i]] if sub["distrust"] else None
+            ped.add_individual(f"ind{i+1}", gts, gls)
+        for f, mo, c in sub["trios"]:
+            ped.add_relationship(f"ind{f}", f"ind{mo}", f"ind{c}")
+        rs2 = ReadSet()
+        for k, r in enumerate(inst["reads"]):
+            rd = Read(f"r{k}", 50, 0, ids[f"ind{r['ind']}"])
+            for c, a, w in r["cells"]:
+                rd.add_variant(c * 10, a, w)
+            rs2.add(rd)
+        rs = rs2
+        keepc = [c for c in range(1, m + 1) if c not in set(drop)]
+        pos = [c * 10 for c in keepc]
+        dp = PedigreeDPTable(rs, list(sub["rc"]), ped, bool(sub["distrust"]), pos)
+        full_inst, inst, m = inst, sub, sub["m"]
+        colpos = {k + 1: c * 10 for k, c in enumerate(keepc)}
+    else:
+        dp = PedigreeDPTable(rs, list(inst["rc"]), ped, bool(inst["distrust"]), pos)
+        colpos = {c: c * 10 for c in range(1, m + 1)}
     def project(srs):
         sr = []
         for s in srs:
             pair = []
             for h in range(2):
                 d = {v.position: v.allele for v in s[h]} if len(s) == 2 else {}
-                pair.append([int(d.get(c * 10, 9)) for c in range(1, m + 1)])
+                pair.append([int(d.get(colpos[c], 9)) for c in range(1, m + 1)])
             sr.append(pair)
         return sr
     # The accessors may be called in any order and any number of times: every partition / super-read set /
@@ -274,7 +316,7 @@ def drive(sc):
             e["deep"] = True
             e["planted"] = planted
         return evs
-    return solve(sc["inst"], sc.get("positions", True), sc.get("order", 0))
+    return solve(sc["inst"], sc.get("positions", True), sc.get("order", 0), sc.get("drop", ()))
 
 
 def nontrivial(sc, events):
